@@ -1371,6 +1371,16 @@ def _same_object(ip, st, a, b):
     return isinstance(a, Obj) and isinstance(b, Obj) and a.oid == b.oid
 
 
+@spec_builtin("same_json")
+def _same_json(ip, st, a, b):
+    """the two values are the same raw JSON value (equality of the uninterpreted JSON terms)"""
+    if isinstance(a, JVal) and isinstance(b, JVal):
+        return True if a.term is b.term else as_value("bool", tm.Eq(a.term, b.term))
+    if not is_sym(a) and not is_sym(b):
+        return type(a) is type(b) and a == b
+    return False
+
+
 @spec_builtin("hexs")
 def _hexs(ip, st, b):
     return as_value("str", V.hexs(to_term(b))) if is_sym(b) else bytes(b).hex()
